@@ -151,3 +151,16 @@ func NativeExtraFiles(allowed ...string) bool {
 func NativeSubRoot(tag, path string) {
 	fmt.Printf("VERIF-SUBROOT %s %s\n", tag, path)
 }
+
+// FsCreateFile (INTRINSIC: no-op) creates a real file for native replay.
+func FsCreateFile(path string) {
+	_ = os.MkdirAll(filepath.Dir(path), 0o700)
+	_ = os.WriteFile(path, []byte("x"), 0o600)
+}
+
+// FsRemoved (INTRINSIC: trace lookup) reports whether path was removed; natively
+// whether the file created by FsCreateFile is gone.
+func FsRemoved(path string) bool {
+	_, err := os.Lstat(path)
+	return err != nil
+}
